@@ -3,26 +3,15 @@
 package main
 
 import (
+	"bytes"
 	"context"
+	"log"
+	"os"
+	"sync"
 	"time"
 
 	"github.com/Comcast/sheens/zzverif/verif"
 )
-
-type firing struct {
-	id  string
-	at  time.Time
-	due time.Time
-}
-
-type c17req struct {
-	add bool
-	id  string
-	d   time.Duration
-	err error
-	at  time.Time // when the request returned
-	due time.Time
-}
 
 var c17ids = []string{"t1", "t2"}
 
@@ -31,34 +20,146 @@ const (
 	c17Long  = 400 * time.Millisecond
 )
 
-// VerifC17Mcrew: the mcrew timers: at most once, never early, cancel wins, the id is free from the moment
-// the timer fires (also for the handler of the firing message), a timer re-created by the handler stays
-// listed and cancellable, the map equals accepted - fired - cancelled once everything is quiet.
+// c17ev: one observable event of a timers scenario, in the order in which they were observed: a make or
+// cancel request that returned (with its outcome), or a firing (the emitter was called).
+type c17ev struct {
+	kind string // "add", "rem", "fire"
+	id   string
+	ok   bool
+	due  time.Time // add: when the timer is due
+	at   time.Time
+}
+
+type c17log struct {
+	sync.Mutex
+	evs []c17ev
+}
+
+func (l *c17log) add(e c17ev) {
+	l.Lock()
+	e.at = time.Now().UTC()
+	l.evs = append(l.evs, e)
+	l.Unlock()
+}
+
+// c17inst: one accepted timer.
+type c17inst struct {
+	id               string
+	due              time.Time
+	fired, cancelled bool
+	inFlight         bool // replaced at or after its due time: it may or may not still fire
+}
+
+// c17Check replays the event log against the statement: every firing belongs to an accepted timer of that
+// id that was due, had not been cancelled and had not fired; a successful cancel removes the pending timer
+// of that id (the newest one: an older one may already have expired and be about to emit).  replaces: a
+// make request under a pending id replaces (cancels) the pending timer (sio) instead of being refused.
+// Returns the timers still pending at the end.
+func c17Check(evs []c17ev, replaces bool) []*c17inst {
+	var insts []*c17inst
+	newest := func(id string) *c17inst {
+		for i := len(insts) - 1; i >= 0; i-- {
+			if t := insts[i]; t.id == id && !t.fired && !t.cancelled && !t.inFlight {
+				return t
+			}
+		}
+		return nil
+	}
+	for _, e := range evs {
+		switch {
+		case e.kind == "add" && e.ok:
+			if replaces {
+				if old := newest(e.id); old != nil {
+					if old.due.After(e.at) {
+						old.cancelled = true // replaced while pending: never fires
+					} else {
+						old.inFlight = true // replaced at the moment it expired
+					}
+				}
+			}
+			insts = append(insts, &c17inst{id: e.id, due: e.due})
+		case e.kind == "rem" && e.ok:
+			t := newest(e.id)
+			verif.Assert("cancel-succeeds-only-for-a-pending-timer", t != nil)
+			if t != nil {
+				t.cancelled = true
+			}
+		case e.kind == "fire":
+			// a timer that is due and still pending first; else one that was replaced just as it expired
+			matched := false
+			for _, inFlight := range []bool{false, true} {
+				for _, t := range insts { // oldest first
+					if !matched && t.inFlight == inFlight && t.id == e.id && !t.fired && !t.cancelled && !e.at.Before(t.due) {
+						t.fired, matched = true, true
+					}
+				}
+			}
+			verif.Assert("each-firing-is-a-live-due-timer-firing-once", matched)
+		}
+	}
+	var pending []*c17inst
+	for _, t := range insts {
+		if !t.fired && !t.cancelled && !t.inFlight {
+			pending = append(pending, t)
+		}
+	}
+	return pending
+}
+
+// c17SlowLog: natively the window between a timer's expiry and its bookkeeping is a few microseconds wide.
+// The service writes a (verbose) log line inside that window; sending the log through a writer that takes
+// its time there widens the window, so that a request recorded as landing at the very moment of an expiry
+// does land inside it when a counterexample is replayed.
+type c17SlowLog struct{}
+
+func (c17SlowLog) Write(p []byte) (int, error) {
+	if bytes.Contains(p, []byte("Timers firing")) {
+		time.Sleep(4 * time.Millisecond)
+	}
+	return len(p), nil
+}
+
 func VerifC17Mcrew() {
-	var fired []firing
+	if !verif.Symbolic() {
+		Verbose = true
+		log.SetOutput(c17SlowLog{})
+		defer func() {
+			Verbose = false
+			log.SetOutput(os.Stderr)
+		}()
+	}
+	lg := &c17log{}
 	var ts *Timers
 	ctx, cancel := context.WithCancel(context.Background())
 	defer cancel()
+	doAdd := func(id string, d time.Duration) error {
+		due := time.Now().UTC().Add(d)
+		err := ts.Add(ctx, id, id, d)
+		lg.add(c17ev{kind: "add", id: id, ok: err == nil, due: due})
+		return err
+	}
+	doRem := func(id string) error {
+		err := ts.Rem(ctx, id)
+		lg.add(c17ev{kind: "rem", id: id, ok: err == nil})
+		return err
+	}
 	// what the handler of the firing message does for "t1": nothing, Add(t1) again, Rem(t1)+Add(t1), Add(t2)
 	handlerMode := verif.Choose("handler", 4)
 	handlerDone := false
-	var handlerAddErr, handlerRemErr error
-	var handlerDue time.Time
+	var handlerAddErr error
 	emitter := func(ctx context.Context, msg interface{}) error {
 		id, _ := msg.(string)
-		due := time.Time{}
-		fired = append(fired, firing{id: id, at: time.Now().UTC(), due: due})
+		lg.add(c17ev{kind: "fire", id: id})
 		if id == "t1" && !handlerDone {
 			handlerDone = true
-			handlerDue = time.Now().UTC().Add(c17Long)
 			switch handlerMode {
 			case 1:
-				handlerAddErr = ts.Add(ctx, "t1", "t1", c17Long)
+				handlerAddErr = doAdd("t1", c17Long)
 			case 2:
-				handlerRemErr = ts.Rem(ctx, "t1")
-				handlerAddErr = ts.Add(ctx, "t1", "t1", c17Long)
+				doRem("t1")
+				handlerAddErr = doAdd("t1", c17Long)
 			case 3:
-				handlerAddErr = ts.Add(ctx, "t2", "t2", c17Long)
+				handlerAddErr = doAdd("t2", c17Long)
 			}
 		}
 		return nil
@@ -67,99 +168,62 @@ func VerifC17Mcrew() {
 
 	// the requester: up to three make/cancel requests
 	nreq := 1 + verif.Choose("nreq", 3)
-	var reqs []*c17req
 	for i := 0; i < nreq; i++ {
 		tag := "req" + string(rune('0'+i))
-		r := &c17req{id: c17ids[verif.Choose(tag+".id", 2)]}
+		id := c17ids[verif.Choose(tag+".id", 2)]
 		if i == 0 || verif.Choose(tag+".kind", 2) == 0 {
-			r.add = true
-			r.d = []time.Duration{c17Short, c17Long}[verif.Choose(tag+".delay", 2)]
-			r.due = time.Now().UTC().Add(r.d)
-			r.err = ts.Add(ctx, r.id, r.id, r.d)
+			doAdd(id, []time.Duration{c17Short, c17Long}[verif.Choose(tag+".delay", 2)])
 		} else {
-			r.err = ts.Rem(ctx, r.id)
+			doRem(id)
 		}
-		r.at = time.Now().UTC()
-		reqs = append(reqs, r)
-		if verif.Choose(tag+".pause", 2) == 1 {
+		if i == nreq-1 {
+			break // a pause after the last request only delays the end of the scenario
+		}
+		switch verif.Choose(tag+".pause", 3) {
+		case 1:
 			time.Sleep(100 * time.Millisecond) // lets a short timer fire in between
+		case 2:
+			// exactly as long as a short timer takes: the next request lands at the very moment such a timer
+			// expires (the scheduler explores both orders of the tie)
+			time.Sleep(c17Short)
 		}
 	}
 	// wait until the short timers (and the handler) are done, but not the long ones
-	time.Sleep(200 * time.Millisecond)
+	// (170 ms: no sum of the pauses above plus this wait equals a due time, so the scenario never ends at the
+	// very moment a timer expires)
+	time.Sleep(170 * time.Millisecond)
 
-	// ---- every firing belongs to its own live timer instance that was due ----
-	// instances: one per accepted Add (requester and handler), with the time it was cancelled (if it was)
-	type inst struct {
-		id        string
-		due       time.Time
-		cancelled bool
-		cancelAt  time.Time
-		fired     bool
+	lg.Lock()
+	evs := append([]c17ev(nil), lg.evs...)
+	lg.Unlock()
+	pending := c17Check(evs, false)
+	now := time.Now().UTC()
+	// an accepted timer that nobody cancelled has fired once it is (well) past its due time
+	for _, t := range pending {
+		verif.Assert("accepted-timer-fires", t.due.After(now.Add(-50*time.Millisecond)))
 	}
-	var insts []*inst
-	live := map[string]*inst{}
-	for _, r := range reqs {
-		if r.add && r.err == nil {
-			t := &inst{id: r.id, due: r.due}
-			insts = append(insts, t)
-			live[r.id] = t
-		} else if !r.add && r.err == nil {
-			if t := live[r.id]; t != nil && !t.cancelled {
-				t.cancelled, t.cancelAt = true, r.at
-			}
-		}
-	}
-	if handlerDone && handlerMode != 0 {
-		hid := "t1"
-		if handlerMode == 3 {
-			hid = "t2"
-		}
-		if handlerMode == 2 && handlerRemErr == nil {
-			if t := live["t1"]; t != nil && !t.cancelled {
-				t.cancelled, t.cancelAt = true, handlerDue.Add(-c17Long)
-			}
-		}
-		if handlerAddErr == nil {
-			insts = append(insts, &inst{id: hid, due: handlerDue})
-		}
-	}
-	count := map[string]int{}
-	accepted := map[string]int{}
-	for _, t := range insts {
-		accepted[t.id]++
-	}
-	for _, f := range fired {
-		count[f.id]++
-		// the firing must be matched by an instance of that id that was due, had not been cancelled before
-		// the firing, and has not fired yet
-		matched := false
-		for _, t := range insts {
-			if t.id != f.id || t.fired || f.at.Before(t.due) {
-				continue
-			}
-			if t.cancelled && !t.cancelAt.After(f.at) {
-				continue // cancelled at or before the moment of firing: must never fire
-			}
-			t.fired, matched = true, true
-			break
-		}
-		verif.Assert("each-firing-is-a-live-due-timer-firing-once", matched)
-	}
-	// ---- the id is free from the moment the timer fires, also for the handler ----
-	if handlerDone && (handlerMode == 1) {
+	// the id is free from the moment the timer fires, also for the handler of its message
+	if handlerDone && handlerMode == 1 {
 		verif.Assert("id-reusable-from-the-handler", handlerAddErr == nil)
 	}
-	if handlerDone && handlerMode == 2 && handlerRemErr == nil && handlerAddErr == nil {
-		// the handler cancelled the (firing) entry and created a new long timer under the id: it must still
-		// be listed and cancellable
+	// the map lists exactly the pending timers, and each of them is still cancellable
+	want := map[string]bool{}
+	unsettled := map[string]bool{} // a timer of that id expires within 30 ms of now: natively it may be in flight
+	for _, t := range pending {
+		want[t.id] = true
+		if d := t.due.Sub(now); d < 30*time.Millisecond && d > -30*time.Millisecond {
+			unsettled[t.id] = true
+		}
+	}
+	for _, id := range c17ids {
 		ts.Lock()
-		_, listed := ts.timers["t1"]
+		_, listed := ts.timers[id]
 		ts.Unlock()
-		pendingLong := count["t1"] < accepted["t1"]
-		if pendingLong {
-			verif.Assert("recreated-timer-stays-listed", listed)
-			verif.Assert("recreated-timer-cancellable", ts.Rem(ctx, "t1") == nil)
+		verif.Assert("map-equals-pending-timers", unsettled[id] || listed == want[id])
+	}
+	for _, t := range pending {
+		if !unsettled[t.id] {
+			verif.Assert("pending-timer-cancellable", ts.Rem(ctx, t.id) == nil)
 		}
 	}
 	verif.Reach("end")
